@@ -58,7 +58,11 @@ def op? : Sexp → Option Op
   | .atom "unwrap" => some .unwrap
   | .atom "buffer" => some .buffer
   | .list [.atom "wrap", t, a] => do
-      let t ← QName.ofSexp? t; let a ← attrsOfSexp? a; pure (.wrap t a)
+      let t ← QName.ofSexp? t; let a ← attrsOfSexp? a; pure (.wrap t a [])
+  | .list [.atom "wrapel", t, a, kids] => do
+      let t ← QName.ofSexp? t; let a ← attrsOfSexp? a; let kids ← streamOfSexp? kids; pure (.wrap t a kids)
+  | .list [.atom "attrfn", n, .str src] => do
+      let n ← QName.ofSexp? n; pure (.attrFn n fun _ a => attrGet a src)
   | .list [.atom "replace", c] => do let c ← content? c; pure (.replace c)
   | .list [.atom "before", c] => do let c ← content? c; pure (.before c)
   | .list [.atom "after", c] => do let c ← content? c; pure (.after c)
